@@ -738,6 +738,9 @@ class _Unjellier:
         refid = lst[0]
         x = self.references.get(refid)
         if x is not None:
+            if isinstance(x, NotKnown) and x.resolved:
+                # The placeholder stored for this id has been resolved since.
+                x = self.references[refid] = x.resolvedObject
             return x
         der = _Dereference(refid)
         self.references[refid] = der
